@@ -10,7 +10,9 @@ import (
 	"encoding/hex"
 	"errors"
 	"fmt"
+	"iter"
 	"reflect"
+	"sort"
 	"strconv"
 	"strings"
 
@@ -76,6 +78,25 @@ func (p payload) same(q payload) bool {
 }
 
 func cp(b []byte) []byte { return append([]byte{}, b...) }
+
+func sortedPairs[V any](m map[string]V) iter.Seq2[string, V] {
+	return func(yield func(string, V) bool) {
+		for _, k := range sortedKeys(m) {
+			if !yield(k, m[k]) {
+				return
+			}
+		}
+	}
+}
+
+func sortedKeys[V any](m map[string]V) []string {
+	out := make([]string, 0, len(m))
+	for k := range m {
+		out = append(out, k)
+	}
+	sort.Strings(out)
+	return out
+}
 
 // ---- keys and constructors ------------------------------------------------------------------
 
@@ -773,7 +794,8 @@ func (c *ctxt) idMutations(s *space) {
 		"acl-id":        s.p.aid + "." + suf,
 		"settings-id":   s.p.sid + "." + suf,
 	}
-	for name, alt := range alts {
+	for _, name := range sortedKeys(alts) {
+		alt := (alts)[name]
 		if alt == id {
 			continue
 		}
@@ -781,12 +803,14 @@ func (c *ctxt) idMutations(s *space) {
 		q.hid = alt
 		c.try(tag+name, q, "reject")
 	}
-	for name, alt := range map[string]string{"empty": "", "header-cid": cidPart, "space-id": id, "other-root": s.p.sid, "upper": strings.ToUpper(s.p.aid)} {
+	for _, name := range sortedKeys(map[string]string{"empty": "", "header-cid": cidPart, "space-id": id, "other-root": s.p.sid, "upper": strings.ToUpper(s.p.aid)}) {
+		alt := (map[string]string{"empty": "", "header-cid": cidPart, "space-id": id, "other-root": s.p.sid, "upper": strings.ToUpper(s.p.aid)})[name]
 		q := s.p
 		q.aid = alt
 		c.try(tag+"acl-"+name, q, "reject")
 	}
-	for name, alt := range map[string]string{"empty": "", "header-cid": cidPart, "space-id": id, "other-root": s.p.aid, "upper": strings.ToUpper(s.p.sid)} {
+	for _, name := range sortedKeys(map[string]string{"empty": "", "header-cid": cidPart, "space-id": id, "other-root": s.p.aid, "upper": strings.ToUpper(s.p.sid)}) {
+		alt := (map[string]string{"empty": "", "header-cid": cidPart, "space-id": id, "other-root": s.p.aid, "upper": strings.ToUpper(s.p.sid)})[name]
 		q := s.p
 		q.sid = alt
 		c.try(tag+"set-"+name, q, "reject")
@@ -902,8 +926,8 @@ func (c *ctxt) signatureSwaps(s, o *space) {
 	tag := s.kind + " sig:"
 	hw, aw, sw := unwrapHeader(s.p.raw), unwrapAcl(s.p.acl), unwrapSet(s.p.set)
 	ohw, oaw, osw := unwrapHeader(o.p.raw), unwrapAcl(o.p.acl), unwrapSet(o.p.set)
-	for name, sg := range map[string][]byte{"acl": aw.sig, "settings": sw.sig, "other-header": ohw.sig, "zero": make([]byte, 64), "empty": nil,
-		"by-master": sign(s.master, hw.inner), "by-stranger": sign(o.sign, hw.inner)} {
+	for name, sg := range sortedPairs(map[string][]byte{"acl": aw.sig, "settings": sw.sig, "other-header": ohw.sig, "zero": make([]byte, 64), "empty": nil,
+		"by-master": sign(s.master, hw.inner), "by-stranger": sign(o.sign, hw.inner)}) {
 		if bytes.Equal(sg, hw.sig) {
 			continue
 		}
@@ -912,8 +936,8 @@ func (c *ctxt) signatureSwaps(s, o *space) {
 		q.hid = idFor(q.raw)
 		c.try(tag+"header<-"+name, q, "reject")
 	}
-	for name, sg := range map[string][]byte{"header": hw.sig, "settings": sw.sig, "other-acl": oaw.sig, "zero": make([]byte, 64), "empty": nil,
-		"by-master": sign(s.master, aw.inner), "by-stranger": sign(o.sign, aw.inner)} {
+	for name, sg := range sortedPairs(map[string][]byte{"header": hw.sig, "settings": sw.sig, "other-acl": oaw.sig, "zero": make([]byte, 64), "empty": nil,
+		"by-master": sign(s.master, aw.inner), "by-stranger": sign(o.sign, aw.inner)}) {
 		if bytes.Equal(sg, aw.sig) {
 			continue
 		}
@@ -922,8 +946,8 @@ func (c *ctxt) signatureSwaps(s, o *space) {
 		q.aid = cidOf(q.acl)
 		c.try(tag+"acl<-"+name, q, "reject")
 	}
-	for name, sg := range map[string][]byte{"header": hw.sig, "acl": aw.sig, "other-settings": osw.sig, "zero": make([]byte, 64), "empty": nil,
-		"by-master": sign(s.master, sw.inner), "by-stranger": sign(o.sign, sw.inner)} {
+	for name, sg := range sortedPairs(map[string][]byte{"header": hw.sig, "acl": aw.sig, "other-settings": osw.sig, "zero": make([]byte, 64), "empty": nil,
+		"by-master": sign(s.master, sw.inner), "by-stranger": sign(o.sign, sw.inner)}) {
 		if bytes.Equal(sg, sw.sig) {
 			continue
 		}
@@ -937,11 +961,13 @@ func (c *ctxt) signatureSwaps(s, o *space) {
 	root.UnmarshalVT(aw.inner)
 	oroot.UnmarshalVT(oaw.inner)
 	rawIdent, _ := s.sign.GetPublic().Raw()
-	for name, sg := range map[string][]byte{"other-space": oroot.IdentitySignature, "record-sig": aw.sig, "by-identity": sign(s.sign, rawIdent), "by-stranger": sign(o.master, rawIdent), "empty": nil} {
+	for _, name := range sortedKeys(map[string][]byte{"other-space": oroot.IdentitySignature, "record-sig": aw.sig, "by-identity": sign(s.sign, rawIdent), "by-stranger": sign(o.master, rawIdent), "empty": nil}) {
+		sg := (map[string][]byte{"other-space": oroot.IdentitySignature, "record-sig": aw.sig, "by-identity": sign(s.sign, rawIdent), "by-stranger": sign(o.master, rawIdent), "empty": nil})[name]
 		if bytes.Equal(sg, root.IdentitySignature) {
 			continue
 		}
-		root2 := root
+		var root2 aclrecordproto.AclRoot
+		root2.UnmarshalVT(aw.inner)
 		root2.IdentitySignature = sg
 		b, _ := (&root2).MarshalVT()
 		q := s.p
@@ -995,6 +1021,153 @@ func (c *ctxt) crossSplices(s, o *space) {
 	q = s.p
 	q.hid = cidOf(o.p.raw) + suffixOf(s.p.hid)
 	c.try(tag+"other-cid+suffix", q, "reject", s.p, o.p)
+}
+
+// intraSwaps: byte strings of one space moved to another slot of the same space (with and without
+// their ids): a root offered where the other root / the header is expected
+func (c *ctxt) intraSwaps(s *space) {
+	tag := s.kind + " intra:"
+	type slot struct {
+		name string
+		id   *string
+		data *[]byte
+	}
+	for i := 0; i < 3; i++ {
+		for j := 0; j < 3; j++ {
+			if i == j {
+				continue
+			}
+			for _, withId := range []bool{true, false} {
+				q := s.p
+				slots := []slot{{"raw", &q.hid, &q.raw}, {"acl", &q.aid, &q.acl}, {"set", &q.sid, &q.set}}
+				src := []slot{{"raw", &s.p.hid, &s.p.raw}, {"acl", &s.p.aid, &s.p.acl}, {"set", &s.p.sid, &s.p.set}}[j]
+				*slots[i].data = *src.data
+				name := slots[i].name + "<-" + src.name
+				if withId {
+					switch {
+					case i == 0: // header slot: give it a well-formed space id for the new bytes
+						*slots[i].id = cidOf(*src.data) + suffixOf(s.p.hid)
+					case j == 0:
+						*slots[i].id = cidOf(*src.data)
+					default:
+						*slots[i].id = *src.id
+					}
+					name += "+id"
+				}
+				c.try(tag+name, q, "reject")
+			}
+		}
+	}
+}
+
+// reissue: the whole chain rebuilt CONSISTENTLY by the owner's key around one deliberately wrong
+// ingredient, so that exactly one check of the validator can object (every other binding — content
+// ids, embedded roots, ACL head, space ids — is recomputed and holds)
+type reissueOpts struct {
+	editAcl    func(root *aclrecordproto.AclRoot)
+	aclSigner  crypto.PrivKey
+	editSet    func(root *treechangeproto.RootChange)
+	setSigner  crypto.PrivKey
+	editHeader func(h *spacesyncproto.SpaceHeader)
+	hdrSigner  crypto.PrivKey
+}
+
+func reissue(s *space, o reissueOpts) payload {
+	pick := func(k crypto.PrivKey) crypto.PrivKey {
+		if k == nil {
+			return s.sign
+		}
+		return k
+	}
+	q := s.p
+	var root aclrecordproto.AclRoot
+	root.UnmarshalVT(unwrapAcl(s.p.acl).inner)
+	if o.editAcl != nil {
+		o.editAcl(&root)
+	}
+	ab, _ := root.MarshalVT()
+	q.acl = wrapAcl(wrapped{ab, sign(pick(o.aclSigner), ab)})
+	q.aid = cidOf(q.acl)
+	var sroot treechangeproto.RootChange
+	sroot.UnmarshalVT(unwrapSet(s.p.set).inner)
+	sroot.AclHeadId = q.aid
+	if o.editSet != nil {
+		o.editSet(&sroot)
+	}
+	sb, _ := sroot.MarshalVT()
+	q.set = wrapSet(wrapped{sb, sign(pick(o.setSigner), sb)})
+	q.sid = cidOf(q.set)
+	if s.v1 || o.editHeader != nil || o.hdrSigner != nil {
+		h := headerOf(s.p.raw)
+		if s.v1 {
+			h.AclPayload, h.SettingPayload = q.acl, q.set
+		}
+		if o.editHeader != nil {
+			o.editHeader(h)
+		}
+		hb, _ := h.MarshalVT()
+		q.raw = wrapHeader(wrapped{hb, sign(pick(o.hdrSigner), hb)})
+		q.hid = idFor(q.raw)
+		if !s.v1 {
+			// v0 roots embed the space id: rebuild them for the new id
+			root.SpaceId = q.hid
+			ab, _ = root.MarshalVT()
+			q.acl = wrapAcl(wrapped{ab, sign(pick(o.aclSigner), ab)})
+			q.aid = cidOf(q.acl)
+			sroot.SpaceId, sroot.AclHeadId = q.hid, q.aid
+			sb, _ = sroot.MarshalVT()
+			q.set = wrapSet(wrapped{sb, sign(pick(o.setSigner), sb)})
+			q.sid = cidOf(q.set)
+		}
+	}
+	return q
+}
+
+func (c *ctxt) reissued(s, o *space) {
+	tag := s.kind + " reissue:"
+	rawIdent, _ := s.sign.GetPublic().Raw()
+	strangerMaster, _ := o.master.GetPublic().Marshall()
+	strangerIdent, _ := o.sign.GetPublic().Marshall()
+	// sanity of the machinery: a consistent re-issue with nothing wrong is a valid payload
+	ok := reissue(s, reissueOpts{editAcl: func(r *aclrecordproto.AclRoot) { r.Timestamp += 7 }, editHeader: func(h *spacesyncproto.SpaceHeader) { h.Timestamp += 7 }})
+	if got := c.try(tag+"consistent", ok, "any"); got != "ok" {
+		c.r.Violate(prop, "", "space.reissue.selfcheck", "harness: a consistently re-issued payload was rejected ("+got+")", []string{tag})
+	}
+	bad := map[string]reissueOpts{
+		"identitySignature-by-stranger-master": {editAcl: func(r *aclrecordproto.AclRoot) { r.IdentitySignature = sign(o.master, rawIdent) }},
+		"identitySignature-by-identity":        {editAcl: func(r *aclrecordproto.AclRoot) { r.IdentitySignature = sign(s.sign, rawIdent) }},
+		"identitySignature-empty":              {editAcl: func(r *aclrecordproto.AclRoot) { r.IdentitySignature = nil }},
+		"identitySignature-over-marshalled":    {editAcl: func(r *aclrecordproto.AclRoot) { r.IdentitySignature = sign(s.master, r.Identity) }},
+		"masterKey-of-stranger":                {editAcl: func(r *aclrecordproto.AclRoot) { r.MasterKey = strangerMaster }},
+		"masterKey-garbage":                    {editAcl: func(r *aclrecordproto.AclRoot) { r.MasterKey = []byte{1, 2, 3} }},
+		"acl-signed-by-stranger":               {aclSigner: o.sign},
+		"acl-signed-by-master":                 {aclSigner: s.master},
+		"acl-identity-of-stranger":             {editAcl: func(r *aclrecordproto.AclRoot) { r.Identity = strangerIdent }},
+		"settings-signed-by-stranger":          {setSigner: o.sign},
+		"settings-signed-by-master":            {setSigner: s.master},
+		"settings-identity-of-stranger":        {editSet: func(r *treechangeproto.RootChange) { r.Identity = strangerIdent }},
+		"settings-identity-garbage":            {editSet: func(r *treechangeproto.RootChange) { r.Identity = []byte{9} }},
+		"settings-stale-acl-head":              {editSet: func(r *treechangeproto.RootChange) { r.AclHeadId = s.p.aid + "x" }},
+		"header-signed-by-stranger":            {hdrSigner: o.sign},
+		"header-signed-by-master":              {hdrSigner: s.master},
+		"header-identity-of-stranger":          {editHeader: func(h *spacesyncproto.SpaceHeader) { h.Identity = strangerIdent }},
+		"header-identity-garbage":              {editHeader: func(h *spacesyncproto.SpaceHeader) { h.Identity = []byte{7, 7} }},
+	}
+	if s.master.Equals(s.sign) { // one-to-one: identity and master key coincide
+		delete(bad, "identitySignature-by-identity")
+		delete(bad, "acl-signed-by-master")
+		delete(bad, "settings-signed-by-master")
+		delete(bad, "header-signed-by-master")
+	}
+	if !s.v1 {
+		bad["acl-names-other-space"] = reissueOpts{editAcl: func(r *aclrecordproto.AclRoot) { r.SpaceId = o.p.hid }}
+		bad["settings-names-other-space"] = reissueOpts{editSet: func(r *treechangeproto.RootChange) { r.SpaceId = o.p.hid }}
+		bad["acl-names-no-space"] = reissueOpts{editAcl: func(r *aclrecordproto.AclRoot) { r.SpaceId = "" }}
+	}
+	for _, name := range sortedKeys(bad) {
+		opt := (bad)[name]
+		c.try(tag+name, reissue(s, opt), "reject")
+	}
 }
 
 // forgedRoots: roots issued by a stranger's key that NAME this space. v1: must be rejected (the header
